@@ -77,4 +77,7 @@ def collection_to_gff3(
     if add_sequences:
         print(GFF3Headers.FASTA_HEADER.value, file=gff3_handle)
         for collection in collections:
-            print(collection.sequence.to_fasta(), file=gff3_handle)
+            # the FASTA record is named like column 1 of the rows and the ##sequence-region line; the sequence of a
+            # chunk-relative collection carries the id of the chunk ("name:start-end"), which no row refers to
+            fasta = collection.sequence.to_fasta()
+            print(f">{collection.sequence_name}" + fasta[fasta.index("\n") :], file=gff3_handle)
